@@ -125,7 +125,101 @@ type tagAnalysis struct {
 	nSrcDone   int
 	total      int
 	opaqueAttr bool
+	// interprocedural exploration
+	cur    *frame // the function being explored
+	info   map[*ssa.Function]*fnInfo
+	steps  int
+	rootFn *ssa.Function
+	memo   map[string][]exitT
+	stack  map[*ssa.Function]bool
 }
+
+// frame: one function on the exploration stack. The root frame is the element encoder; a callee frame is a local closure or a
+// module helper that receives the output buffer or the value being encoded. Values of a callee that are merely names for values
+// of its caller (parameters, promoted read-only captured variables) are "bound": questions about them are answered in the caller's
+// frame with the caller's path state at the call.
+type frame struct {
+	fn      *ssa.Function
+	parent  *frame
+	callerT tagTuple
+	bind    map[ssa.Value]ssa.Value // Parameter -> argument (a value of the parent frame's function)
+	depth   int
+}
+
+type fnInfo struct {
+	relevant map[ssa.Value]bool
+	defBlock map[string]*ssa.BasicBlock
+	opPhis   map[*ssa.Phi]bool
+	storesFV bool // the function assigns a captured variable
+}
+
+// exitT: the path state at a return of a callee and the returned values.
+type exitT struct {
+	t       tagTuple
+	results []ssa.Value
+}
+
+// bound: v is, in the current frame, only a name for a value of the caller (and which).
+func (a *tagAnalysis) bound(v ssa.Value) (ssa.Value, bool) {
+	fc := a.cur
+	if fc == nil || fc.parent == nil {
+		return nil, false
+	}
+	if bv, ok := fc.bind[v]; ok {
+		return bv, true
+	}
+	if cv := a.p.CellValue(v); cv != nil {
+		if vf := cv.Parent(); vf == nil || vf == fc.parent.fn {
+			return cv, true
+		}
+	}
+	return nil, false
+}
+
+// inParent evaluates f in the caller's frame.
+func (a *tagAnalysis) inParent(f func()) {
+	fc := a.cur
+	a.cur = fc.parent
+	a.swapFn()
+	f()
+	a.cur = fc
+	a.swapFn()
+}
+
+// swapFn keeps the per-function helpers (canonizer, type flow) in step with the current frame.
+func (a *tagAnalysis) swapFn() {
+	if a.cur == nil {
+		return
+	}
+	a.fn = a.cur.fn
+	a.cz = a.p.canonFor(a.fn)
+}
+
+// isBufVal / isKeyVal: v denotes the output buffer / the element name of the root encoder.
+func (a *tagAnalysis) isBufVal(v ssa.Value) bool {
+	if v == ssa.Value(a.buf) {
+		return true
+	}
+	if bv, ok := a.bound(v); ok {
+		r := false
+		callerT := a.cur.callerT
+		_ = callerT
+		a.inParent(func() { r = a.isBufVal(bv) })
+		return r
+	}
+	return false
+}
+
+func (a *tagAnalysis) rootOf(t tagTuple, v ssa.Value) ssa.Value {
+	if bv, ok := a.bound(v); ok {
+		var r ssa.Value
+		ct := a.cur.callerT
+		a.inParent(func() { r = a.rootOf(ct, bv) })
+		return r
+	}
+	return v
+}
+
 
 // normT: byte is an alias of uint8 — one name for the one type.
 func normT(n string) string {
@@ -213,6 +307,12 @@ func (a *tagAnalysis) isDer(t tagTuple, v ssa.Value, depth int) bool {
 	if v == nil || a.src == nil {
 		return false
 	}
+	if bv, ok := a.bound(v); ok {
+		r := false
+		ct := a.cur.callerT
+		a.inParent(func() { r = a.isDer(ct, bv, depth+1) })
+		return r
+	}
 	if a.sameAsSrc(v) {
 		return true
 	}
@@ -265,6 +365,9 @@ func (a *tagAnalysis) sameAsSrc(v ssa.Value) bool {
 	if v == a.src {
 		return true
 	}
+	if a.cur != nil && a.cur.parent != nil {
+		return false
+	}
 	if a.srcCanon == "" {
 		a.srcCanon = a.cz.of(a.src)
 	}
@@ -280,6 +383,12 @@ func (a *tagAnalysis) sameAsSrc(v ssa.Value) bool {
 
 // isSrcNow: on this path v holds the content source itself (the source, a re-evaluation of it, or a phi whose incoming value was it).
 func (a *tagAnalysis) isSrcNow(t tagTuple, v ssa.Value) bool {
+	if bv, ok := a.bound(v); ok {
+		r := false
+		ct := a.cur.callerT
+		a.inParent(func() { r = a.isSrcNow(ct, bv) })
+		return r
+	}
 	if a.sameAsSrc(v) {
 		return true
 	}
@@ -358,6 +467,11 @@ func (a *tagAnalysis) opParts(t tagTuple, v ssa.Value) []ssa.Value {
 					return
 				}
 			}
+		}
+		if bv, ok := a.bound(v); ok {
+			ct := a.cur.callerT
+			a.inParent(func() { out = append(out, a.opParts(ct, bv)...) })
+			return
 		}
 		out = append(out, v)
 	}
@@ -609,6 +723,9 @@ var pctName = regexp.MustCompile(`%([A-Za-z_][A-Za-z0-9_]*)`)
 
 // factDeps: the SSA value names a fact key speaks about.
 func factDeps(k string) []string {
+	if strings.HasPrefix(k, "b:") {
+		return []string{k[2:]}
+	}
 	if strings.HasPrefix(k, "$d:") || strings.HasPrefix(k, "$a:") || strings.HasPrefix(k, "$p:") {
 		return []string{k[3:]}
 	}
@@ -636,6 +753,15 @@ func flipTF(s string) string {
 }
 
 func (a *tagAnalysis) getVal(t tagTuple, v ssa.Value) string {
+	if bv, ok := a.bound(v); ok {
+		if r, have := t.vals["b:"+v.Name()]; have {
+			return r
+		}
+		r := ""
+		ct := a.cur.callerT
+		a.inParent(func() { r = a.absOf(ct, bv) })
+		return r
+	}
 	k, flip := a.vk(v)
 	r := t.vals[k]
 	if flip {
@@ -645,6 +771,10 @@ func (a *tagAnalysis) getVal(t tagTuple, v ssa.Value) string {
 }
 
 func (a *tagAnalysis) setVal(t tagTuple, v ssa.Value, val string) {
+	if _, ok := a.bound(v); ok {
+		t.vals["b:"+v.Name()] = val
+		return
+	}
 	k, flip := a.vk(v)
 	if flip {
 		val = flipTF(val)
@@ -930,7 +1060,6 @@ func (a *tagAnalysis) refine(t tagTuple, cond ssa.Value, taken bool) tagTuple {
 	return n
 }
 
-
 // classify a buffer write operand by its leftmost constant prefix.
 func (a *tagAnalysis) classify(parts []ssa.Value) string {
 	// skip empty constants at the front
@@ -1049,7 +1178,7 @@ func mapEncoderAnalysis(p *Prog, r *Report, rule string) *tagAnalysis {
 	a.domain = jsonDomain
 	a.stateNames = tsNames
 	a.writeOp = func(cm *ssa.CallCommon) (ssa.Value, bool, bool) {
-		if isCallTo(cm, "(*bytes.Buffer).WriteString", "(*bytes.Buffer).Write") && cm.Args[0] == ssa.Value(a.buf) {
+		if isCallTo(cm, "(*bytes.Buffer).WriteString", "(*bytes.Buffer).Write") && a.isBufVal(cm.Args[0]) {
 			return cm.Args[1], isCallTo(cm, "(*bytes.Buffer).Write"), true
 		}
 		return nil, false, false
@@ -1126,11 +1255,13 @@ func (a *tagAnalysis) write(t *tagTuple, op ssa.Value, raw bool, pos token.Pos) 
 	}
 }
 
-// run explores the encoder path-sensitively; false when the analysis could not be completed (an undecided obligation has been recorded).
-func (a *tagAnalysis) run(r *Report, rule string) bool {
-	p, fn, valueP := a.p, a.fn, a.valueP
-	// relevant steering values: booleans/integers that some branch condition depends on (through phis, negation, comparison with a constant)
-	relevant := map[ssa.Value]bool{}
+// infoOf: per-function facts that do not depend on the path.
+func (a *tagAnalysis) infoOf(fn *ssa.Function) *fnInfo {
+	if fi, ok := a.info[fn]; ok {
+		return fi
+	}
+	fi := &fnInfo{relevant: map[ssa.Value]bool{}, defBlock: map[string]*ssa.BasicBlock{}, opPhis: map[*ssa.Phi]bool{}}
+	relevant := fi.relevant
 	var mark func(v ssa.Value)
 	mark = func(v ssa.Value) {
 		if v == nil || relevant[v] {
@@ -1168,149 +1299,248 @@ func (a *tagAnalysis) run(r *Report, rule string) bool {
 			mark(ifi.Cond)
 		}
 	}
-	defBlock := map[string]*ssa.BasicBlock{}
 	eachInstr(fn, func(b *ssa.BasicBlock, in ssa.Instruction) {
 		if v, ok := in.(ssa.Value); ok {
-			defBlock[v.Name()] = b
+			fi.defBlock[v.Name()] = b
+		}
+		if st, ok := in.(*ssa.Store); ok {
+			if _, isFV := st.Addr.(*ssa.FreeVar); isFV {
+				fi.storesFV = true
+			}
 		}
 	})
-	// value-like interface values: the value parameter and the phis that merge it (value is re-assigned in the encoder)
-	isValueLike := func(v ssa.Value) bool {
-		if !isIfaceType(v.Type()) {
-			return false
+	// string phis that (through concatenation and other phis) feed an operand of a write to a buffer / builder
+	var rec func(v ssa.Value)
+	rec = func(v ssa.Value) {
+		switch x := v.(type) {
+		case *ssa.BinOp:
+			if x.Op == token.ADD {
+				rec(x.X)
+				rec(x.Y)
+			}
+		case *ssa.Phi:
+			if fi.opPhis[x] || !isStringType(x.Type()) {
+				return
+			}
+			fi.opPhis[x] = true
+			for _, e := range x.Edges {
+				rec(e)
+			}
 		}
-		if v == ssa.Value(valueP) || phiChainReachesValue(v, valueP) {
+	}
+	eachInstr(fn, func(b *ssa.BasicBlock, in ssa.Instruction) {
+		if ci, ok := in.(ssa.CallInstruction); ok {
+			cm := ci.Common()
+			if isCallTo(cm, "(*bytes.Buffer).WriteString", "(*strings.Builder).WriteString") && len(cm.Args) == 2 {
+				rec(cm.Args[1])
+			} else if g := staticCallee(cm); g != nil && a.p.InModule(g) {
+				for _, arg := range cm.Args {
+					if isStringType(arg.Type()) {
+						rec(arg)
+					}
+				}
+			}
+		}
+	})
+	a.info[fn] = fi
+	return fi
+}
+
+// isValueLike: an interface value whose dynamic type is tracked — the value parameter of the root encoder, the phis that re-assign
+// it, the content source and its phis, and callee values bound to one of these.
+func (a *tagAnalysis) isValueLike(v ssa.Value) bool {
+	if !isIfaceType(v.Type()) {
+		return false
+	}
+	if bv, ok := a.bound(v); ok {
+		r := false
+		a.inParent(func() { r = a.isValueLike(bv) })
+		return r
+	}
+	if a.cur.parent == nil {
+		if v == ssa.Value(a.valueP) || phiChainReachesValue(v, a.valueP) {
 			return true
 		}
 		return a.src != nil && (a.sameAsSrc(v) || phiChainReachesValue(v, a.src))
 	}
-	// the domain that prunes a subject: the value parameter ranges over the encoder's domain, a text value over scalars
-	domainOf := func(v ssa.Value) map[string]bool {
-		if v == ssa.Value(valueP) || phiChainReachesValue(v, valueP) {
-			return a.domain
+	// in a callee: phis over bound value-like values
+	if ph, ok := v.(*ssa.Phi); ok {
+		for _, e := range ph.Edges {
+			if e != v && a.isValueLike(e) {
+				return true
+			}
 		}
-		return nil
 	}
-	typeOf := func(t tagTuple, v ssa.Value) tset {
-		if mi, ok := v.(*ssa.MakeInterface); ok {
-			return posT(normT(tname(mi.X.Type())))
-		}
-		if isNilConst(v) {
-			return posT("nil")
-		}
-		if ts, ok := t.types[v.Name()]; ok {
-			return ts
-		}
-		return topT()
+	return false
+}
+
+// domainOf: the set of dynamic types a subject ranges over (nil: no domain restriction).
+func (a *tagAnalysis) domainOf(v ssa.Value) map[string]bool {
+	if bv, ok := a.bound(v); ok {
+		var r map[string]bool
+		a.inParent(func() { r = a.domainOf(bv) })
+		return r
 	}
-	a.typeOf = typeOf
-	// refineType: apply a branch on the dynamic type of a value-like subject; ok=false when the edge is infeasible or outside the domain
-	refineType := func(t tagTuple, cond ssa.Value, taken bool) (tagTuple, bool) {
-		g := normGuard(guard{cond, taken})
-		var subj ssa.Value
-		var only string
-		var without string
-		switch c := g.Cond.(type) {
-		case *ssa.Extract:
-			ta, ok := c.Tuple.(*ssa.TypeAssert)
-			if !ok || c.Index != 1 || !ta.CommaOk {
-				return t, true
-			}
-			subj = ta.X
-			if isIfaceType(ta.AssertedType) {
-				if g.Pol {
-					without = "nil"
-				} else {
-					only = "nil"
-				}
-			} else if g.Pol {
-				only = normT(tname(ta.AssertedType))
-			} else {
-				without = normT(tname(ta.AssertedType))
-			}
-		case *ssa.BinOp:
-			if (c.Op == token.EQL || c.Op == token.NEQ) && isNilConst(c.Y) && isIfaceType(c.X.Type()) {
-				subj = c.X
-				if (c.Op == token.EQL) == g.Pol {
-					only = "nil"
-				} else {
-					without = "nil"
-				}
-			} else {
-				return t, true
-			}
-		default:
+	if a.cur.parent == nil && (v == ssa.Value(a.valueP) || phiChainReachesValue(v, a.valueP)) {
+		return a.domain
+	}
+	return nil
+}
+
+func (a *tagAnalysis) typeOfVal(t tagTuple, v ssa.Value) tset {
+	if mi, ok := v.(*ssa.MakeInterface); ok {
+		return posT(normT(tname(mi.X.Type())))
+	}
+	if isNilConst(v) {
+		return posT("nil")
+	}
+	if ts, ok := t.types[v.Name()]; ok {
+		return ts
+	}
+	if bv, ok := a.bound(v); ok {
+		r := topT()
+		ct := a.cur.callerT
+		a.inParent(func() { r = a.typeOfVal(ct, bv) })
+		return r
+	}
+	return topT()
+}
+
+// refineType: apply a branch on the dynamic type of a value-like subject; ok=false when the edge is infeasible or outside the domain
+func (a *tagAnalysis) refineType(t tagTuple, cond ssa.Value, taken bool) (tagTuple, bool) {
+	g := normGuard(guard{cond, taken})
+	var subj ssa.Value
+	var only string
+	var without string
+	switch c := g.Cond.(type) {
+	case *ssa.Extract:
+		ta, ok := c.Tuple.(*ssa.TypeAssert)
+		if !ok || c.Index != 1 || !ta.CommaOk {
 			return t, true
 		}
-		if !isValueLike(subj) {
-			return t, true
-		}
-		cur := typeOf(t, subj)
-		var nt tset
-		if only != "" {
-			nt = cur.only(only)
+		subj = ta.X
+		if isIfaceType(ta.AssertedType) {
+			if g.Pol {
+				without = "nil"
+			} else {
+				only = "nil"
+			}
+		} else if g.Pol {
+			only = normT(tname(ta.AssertedType))
 		} else {
-			nt = cur.without(without)
+			without = normT(tname(ta.AssertedType))
 		}
-		if !nt.neg && len(nt.ts) == 0 {
-			return t, false
+	case *ssa.BinOp:
+		if (c.Op == token.EQL || c.Op == token.NEQ) && isNilConst(c.Y) && isIfaceType(c.X.Type()) {
+			subj = c.X
+			if (c.Op == token.EQL) == g.Pol {
+				only = "nil"
+			} else {
+				without = "nil"
+			}
+		} else {
+			return t, true
 		}
-		if d := domainOf(subj); d != nil && !inDomainOf(d, nt) {
-			return t, false
-		}
-		n := t.clone()
-		n.types[subj.Name()] = nt
-		if a.src != nil && a.isSrcNow(t, subj) {
-			n.types["$src"] = nt
-		}
-		return n, true
+	default:
+		return t, true
 	}
-	opPhis := a.operandPhis()
-	in := map[*ssa.BasicBlock]map[string]tagTuple{}
+	if !a.isValueLike(subj) {
+		return t, true
+	}
+	cur := a.typeOfVal(t, subj)
+	var nt tset
+	if only != "" {
+		nt = cur.only(only)
+	} else {
+		nt = cur.without(without)
+	}
+	if !nt.neg && len(nt.ts) == 0 {
+		return t, false
+	}
+	if d := a.domainOf(subj); d != nil && !inDomainOf(d, nt) {
+		return t, false
+	}
+	n := t.clone()
+	n.types[subj.Name()] = nt
+	if a.src != nil && a.isSrcNow(t, subj) {
+		n.types["$src"] = nt
+	}
+	return n, true
+}
+
+// run explores the encoder path-sensitively; false when the analysis could not be completed (an undecided obligation has been recorded).
+func (a *tagAnalysis) run(r *Report, rule string) bool {
+	a.rootFn = a.fn
+	a.info = map[*ssa.Function]*fnInfo{}
+	a.memo = map[string][]exitT{}
+	a.stack = map[*ssa.Function]bool{}
+	a.typeOf = a.typeOfVal
+	root := &frame{fn: a.fn}
+	a.cur = root
 	start := tagTuple{t: tsNone, vals: map[string]string{}, types: map[string]tset{}}
 	if a.src != nil && a.srcInstr == nil {
 		start.vals["$src"] = "T"
 	}
+	_, ok := a.explore(root, start)
+	a.cur = root
+	a.swapFn()
+	if !ok {
+		r.Unknown(rule, a.p.Name(a.rootFn), "tag protocol", a.p.Pos(a.rootFn.Pos()), "state space exceeded the budget")
+		return false
+	}
+	return true
+}
+
+// explore runs the path-sensitive exploration of one function from one entry state and returns the states at its returns.
+func (a *tagAnalysis) explore(fc *frame, start tagTuple) ([]exitT, bool) {
+	p, fn := a.p, fc.fn
+	saved := a.cur
+	a.cur = fc
+	a.swapFn()
+	defer func() {
+		a.cur = saved
+		a.swapFn()
+	}()
+	fi := a.infoOf(fn)
+	relevant, defBlock, opPhis := fi.relevant, fi.defBlock, fi.opPhis
+	isRoot := fc.parent == nil
+	var exits []exitT
+	exitSeen := map[string]bool{}
+	in := map[*ssa.BasicBlock]map[string]tagTuple{}
 	in[fn.Blocks[0]] = map[string]tagTuple{start.key(): start}
 	work := []*ssa.BasicBlock{fn.Blocks[0]}
 	queued := map[*ssa.BasicBlock]bool{fn.Blocks[0]: true}
 	processed := map[*ssa.BasicBlock]map[string]bool{}
-	steps := 0
+	okAll := true
 	for len(work) > 0 {
 		b := work[0]
 		work = work[1:]
 		queued[b] = false
-		steps++
-		if steps > 200000 {
-			r.Unknown(rule, p.Name(fn), "tag protocol", p.Pos(fn.Pos()), "state space exceeded the budget")
-			return false
+		a.steps++
+		if a.steps > 400000 {
+			return nil, false
 		}
 		if processed[b] == nil {
 			processed[b] = map[string]bool{}
 		}
 		outs := map[string]tagTuple{}
-		for k, t0 := range in[b] {
-			if processed[b][k] {
-				continue
-			}
-			processed[b][k] = true
-			t := t0.clone()
-			t.trace += fmt.Sprintf(" %d", b.Index)
-			dead := false
-			for _, ins := range b.Instrs {
-				if a.src != nil && a.srcInstr != nil && ins == a.srcInstr {
+		// walk executes the instructions of b from index idx on for one path state; a call into a modelled callee forks the walk
+		var walk func(t tagTuple, idx int)
+		walk = func(t tagTuple, idx int) {
+			for ; idx < len(b.Instrs); idx++ {
+				ins := b.Instrs[idx]
+				if isRoot && a.src != nil && a.srcInstr != nil && ins == a.srcInstr {
 					t.vals["$src"] = "T"
 					delete(t.vals, "$wrote")
 					delete(t.vals, "$empty")
 					delete(t.vals, "$present")
 					delete(t.types, "$src")
 				}
-				if ta, ok := ins.(*ssa.TypeAssert); ok && !ta.CommaOk && !isIfaceType(ta.AssertedType) && isValueLike(ta.X) {
+				if ta, ok := ins.(*ssa.TypeAssert); ok && !ta.CommaOk && !isIfaceType(ta.AssertedType) && a.isValueLike(ta.X) {
 					// execution continues only if the assertion holds
-					nt := typeOf(t, ta.X).only(normT(tname(ta.AssertedType)))
+					nt := a.typeOfVal(t, ta.X).only(normT(tname(ta.AssertedType)))
 					if !nt.neg && len(nt.ts) == 0 {
-						dead = true
-						break
+						return
 					}
 					t.types[ta.X.Name()] = nt
 					if a.src != nil && a.isSrcNow(t, ta.X) {
@@ -1325,39 +1555,58 @@ func (a *tagAnalysis) run(r *Report, rule string) bool {
 					cm := x.Common()
 					if op, raw, ok := a.writeOp(cm); ok {
 						a.write(&t, op, raw, ins.Pos())
-					} else if staticCallee(cm) == fn {
+					} else if g := staticCallee(cm); g == a.rootFn {
 						a.onRecurse(&t, ins.Pos())
-					} else if bi := bufArgIndex(cm, a.buf); bi >= 0 {
-						// the buffer is handed to another function: accept a plain write wrapper, anything else is not modelled
-						if ai := writeWrapperArg(staticCallee(cm), bi, a.wrapperWrite); ai >= 0 {
-							a.write(&t, cm.Args[ai], false, ins.Pos())
-						} else if !isCallTo(cm, "(*bytes.Buffer).Len", "(*bytes.Buffer).String", "(*bytes.Buffer).Bytes", "(*strings.Builder).Len", "(*strings.Builder).String") {
-							a.unmodelled[p.Pos(ins.Pos())] = p.calleeName(cm)
+					} else if a.involved(t, cm) {
+						cv, isVal := ins.(ssa.Value)
+						exs, modelled := a.callInto(fc, t, cm, g)
+						if !modelled {
+							if !isCallTo(cm, "(*bytes.Buffer).Len", "(*bytes.Buffer).String", "(*bytes.Buffer).Bytes", "(*strings.Builder).Len", "(*strings.Builder).String") && a.touchesBuf(cm) {
+								a.unmodelled[p.Pos(ins.Pos())] = p.calleeName(cm)
+							}
+							break
 						}
+						for _, e := range exs {
+							nt := t.clone()
+							a.killRedefined(nt, ins)
+							a.afterCall(&nt, e, cm, g)
+							if isVal {
+								a.resultFacts(nt, cv, e)
+							}
+							walk(nt, idx+1)
+						}
+						return
 					}
 				case *ssa.Return:
-					if len(x.Results) == 1 && !a.knownNonNil(t, x.Results[0]) {
-						if !a.finalOK(t.t) {
-							a.viol[fmt.Sprintf("the encoder returns success while the element is in state %q", a.stateNames[t.t])] = p.Pos(x.Pos())
-						}
-					}
-				}
-				// a value computed again (loop iteration) is a new value: facts about the previous one do not carry over
-				if v, ok := ins.(ssa.Value); ok {
-					if _, isPhi := ins.(*ssa.Phi); !isPhi {
-						for k := range t.vals {
-							for _, d := range factDeps(k) {
-								if d == v.Name() {
-									delete(t.vals, k)
-								}
+					if isRoot {
+						if len(x.Results) == 1 && !a.knownNonNil(t, x.Results[0]) {
+							if !a.finalOK(t.t) {
+								a.viol[fmt.Sprintf("the encoder returns success while the element is in state %q", a.stateNames[t.t])] = p.Pos(x.Pos())
 							}
 						}
-						delete(t.types, v.Name())
+					} else {
+						e := exitT{t: t.clone(), results: x.Results}
+						k := e.t.key() + fmt.Sprintf("|%p", x)
+						if !exitSeen[k] {
+							exitSeen[k] = true
+							exits = append(exits, e)
+						}
 					}
 				}
+				a.killRedefined(t, ins)
 			}
-			if !dead {
-				outs[t.key()] = t
+			outs[t.key()] = t
+		}
+		for k, t0 := range in[b] {
+			if processed[b][k] {
+				continue
+			}
+			processed[b][k] = true
+			t := t0.clone()
+			t.trace += fmt.Sprintf(" %d", b.Index)
+			walk(t, 0)
+			if a.steps > 400000 {
+				return nil, false
 			}
 		}
 		for si, s := range b.Succs {
@@ -1386,17 +1635,17 @@ func (a *tagAnalysis) run(r *Report, rule string) bool {
 					}
 					nt = a.refine(t, ifi.Cond, si == 0)
 					var ok bool
-					nt, ok = refineType(nt, ifi.Cond, si == 0)
+					nt, ok = a.refineType(nt, ifi.Cond, si == 0)
 					if !ok {
 						continue
 					}
-					if a.feasible != nil && !a.feasible(nt) {
+					if isRoot && a.feasible != nil && !a.feasible(nt) {
 						continue
 					}
 					if a.src != nil && a.emptyOnEdge(nt, ifi.Cond, si == 0) {
 						nt.vals["$empty"] = "T"
 					}
-					if a.srcOK != nil {
+					if isRoot && a.srcOK != nil {
 						if g := normGuard(guard{ifi.Cond, si == 0}); g.Cond == a.srcOK {
 							if g.Pol {
 								nt.vals["$present"] = "T"
@@ -1428,8 +1677,8 @@ func (a *tagAnalysis) run(r *Report, rule string) bool {
 							delete(nt.vals, "$d:"+ph.Name())
 						}
 					}
-					if isIfaceType(ph.Type()) && isValueLike(ph) && slot >= 0 {
-						ts := typeOf(pre, ph.Edges[slot])
+					if isIfaceType(ph.Type()) && a.isValueLike(ph) && slot >= 0 {
+						ts := a.typeOfVal(pre, ph.Edges[slot])
 						if ts.isTop() {
 							delete(nt.types, ph.Name())
 						} else {
@@ -1480,7 +1729,255 @@ func (a *tagAnalysis) run(r *Report, rule string) bool {
 	for _, m := range in {
 		a.total += len(m)
 	}
-	return true
+	return exits, okAll
+}
+
+// killRedefined: a value computed again (loop iteration) is a new value: facts about the previous one do not carry over.
+func (a *tagAnalysis) killRedefined(t tagTuple, ins ssa.Instruction) {
+	v, ok := ins.(ssa.Value)
+	if !ok {
+		return
+	}
+	if _, isPhi := ins.(*ssa.Phi); isPhi {
+		return
+	}
+	if _, isEx := ins.(*ssa.Extract); isEx {
+		return // a projection of a tuple: new only when the tuple is
+	}
+	names := map[string]bool{v.Name(): true}
+	if refs := v.Referrers(); refs != nil {
+		for _, ref := range *refs {
+			if ex, ok := ref.(*ssa.Extract); ok {
+				names[ex.Name()] = true
+			}
+		}
+	}
+	for k := range t.vals {
+		for _, d := range factDeps(k) {
+			if names[d] {
+				delete(t.vals, k)
+			}
+		}
+	}
+	for n := range names {
+		delete(t.types, n)
+	}
+}
+
+// touchesBuf: the call receives the output buffer (as an argument or as a captured variable of the closure called).
+func (a *tagAnalysis) touchesBuf(cm *ssa.CallCommon) bool {
+	for _, arg := range cm.Args {
+		if a.isBufVal(arg) {
+			return true
+		}
+	}
+	if mc, ok := cm.Value.(*ssa.MakeClosure); ok {
+		for _, bnd := range mc.Bindings {
+			if a.isBufVal(bnd) {
+				return true
+			}
+			// a captured variable: the cell holds the buffer
+			if al, ok := bnd.(*ssa.Alloc); ok {
+				for _, ref := range *al.Referrers() {
+					if st, ok := ref.(*ssa.Store); ok && st.Addr == ssa.Value(al) && a.isBufVal(st.Val) {
+						return true
+					}
+				}
+			}
+		}
+	}
+	return false
+}
+
+// involved: the call concerns the exploration — it receives the buffer, or a tracked interface value.
+func (a *tagAnalysis) involved(t tagTuple, cm *ssa.CallCommon) bool {
+	if a.touchesBuf(cm) {
+		return true
+	}
+	g := staticCallee(cm)
+	if g == nil || !a.p.InModule(g) || len(g.Blocks) == 0 {
+		return false
+	}
+	for _, arg := range cm.Args {
+		if isIfaceType(arg.Type()) && a.isValueLike(arg) {
+			return true
+		}
+	}
+	return false
+}
+
+// callInto explores a module callee (a local closure or a helper) from the current path state. modelled=false when the callee
+// cannot be followed (no body, recursion among helpers, too deep, assigns captured variables).
+func (a *tagAnalysis) callInto(fc *frame, t tagTuple, cm *ssa.CallCommon, g *ssa.Function) ([]exitT, bool) {
+	if g == nil || !a.p.InModule(g) || len(g.Blocks) == 0 || fc.depth >= 3 || a.stack[g] || g == a.rootFn {
+		return nil, false
+	}
+	if a.infoOf(g).storesFV {
+		return nil, false
+	}
+	if mc, ok := cm.Value.(*ssa.MakeClosure); ok {
+		// every captured variable must be a promoted read-only one, otherwise its value inside the closure is unknown;
+		// that is harmless unless it is the buffer
+		cf, _ := mc.Fn.(*ssa.Function)
+		if cf != nil {
+			for i, bnd := range mc.Bindings {
+				if i < len(cf.FreeVars) {
+					if _, promoted := a.p.cellVal[cf.FreeVars[i]]; !promoted {
+						if al, ok := bnd.(*ssa.Alloc); ok {
+							for _, ref := range *al.Referrers() {
+								if st, ok := ref.(*ssa.Store); ok && st.Addr == ssa.Value(al) && a.isBufVal(st.Val) {
+									return nil, false
+								}
+							}
+						}
+					}
+				}
+			}
+		}
+	}
+	callee := &frame{fn: g, parent: fc, callerT: t, bind: map[ssa.Value]ssa.Value{}, depth: fc.depth + 1}
+	for i, prm := range g.Params {
+		if i < len(cm.Args) {
+			callee.bind[prm] = cm.Args[i]
+		}
+	}
+	start := tagTuple{t: t.t, vals: map[string]string{}, types: map[string]tset{}, trace: t.trace + " >" + g.Name()}
+	for _, k := range []string{"$src", "$wrote", "$empty", "$present"} {
+		if v, ok := t.vals[k]; ok {
+			start.vals[k] = v
+		}
+	}
+	if ts, ok := t.types["$src"]; ok {
+		start.types["$src"] = ts
+	}
+	mk := fmt.Sprintf("%p|%s|%s", g, start.key(), t.key())
+	if ex, ok := a.memo[mk]; ok {
+		return ex, true
+	}
+	a.stack[g] = true
+	exits, ok := a.explore(callee, start)
+	delete(a.stack, g)
+	if !ok {
+		return nil, false
+	}
+	a.memo[mk] = exits
+	return exits, true
+}
+
+// afterCall: the caller's path state after the callee returned through exit e.
+func (a *tagAnalysis) afterCall(nt *tagTuple, e exitT, cm *ssa.CallCommon, g *ssa.Function) {
+	nt.t = e.t.t
+	for _, k := range []string{"$src", "$wrote", "$empty", "$present"} {
+		if v, ok := e.t.vals[k]; ok {
+			nt.vals[k] = v
+		} else {
+			delete(nt.vals, k)
+		}
+	}
+	if ts, ok := e.t.types["$src"]; ok {
+		nt.types["$src"] = ts
+	}
+	// what the callee learnt about the dynamic type of an interface argument holds for the argument
+	for i, prm := range g.Params {
+		if i >= len(cm.Args) || !isIfaceType(prm.Type()) {
+			continue
+		}
+		if ts, ok := e.t.types[prm.Name()]; ok && a.isValueLike(cm.Args[i]) {
+			nt.types[cm.Args[i].Name()] = ts
+		}
+	}
+	nt.trace = e.t.trace + " <"
+}
+
+// resultFacts: what is known about the values a callee returned on this exit — boolean constants, nil / non-nil errors.
+func (a *tagAnalysis) resultFacts(t tagTuple, call ssa.Value, e exitT) {
+	var targets []ssa.Value
+	if len(e.results) == 1 {
+		targets = []ssa.Value{call}
+	} else {
+		targets = make([]ssa.Value, len(e.results))
+		if call.Referrers() != nil {
+			for _, ref := range *call.Referrers() {
+				if ex, ok := ref.(*ssa.Extract); ok && ex.Index < len(targets) {
+					targets[ex.Index] = ex
+				}
+			}
+		}
+	}
+	for i, rv := range e.results {
+		tv := targets[i]
+		if tv == nil {
+			continue
+		}
+		if b, ok := constBool(rv); ok {
+			if b {
+				a.setVal(t, tv, "T")
+			} else {
+				a.setVal(t, tv, "F")
+			}
+			continue
+		}
+		if isBoolType(rv.Type()) {
+			continue
+		}
+		if isErrorType(rv.Type()) && tv.Referrers() != nil {
+			known := ""
+			if isNilConst(rv) {
+				known = "nil"
+			} else {
+				if a.exitNonNil(e, rv) {
+					known = "nonnil"
+				}
+			}
+			if known == "" {
+				continue
+			}
+			for _, ref := range *tv.Referrers() {
+				bo, ok := ref.(*ssa.BinOp)
+				if !ok || !(isNilConst(bo.Y) && bo.X == tv) {
+					continue
+				}
+				isNil := known == "nil"
+				if bo.Op == token.EQL {
+					a.setVal(t, bo, map[bool]string{true: "T", false: "F"}[isNil])
+				} else if bo.Op == token.NEQ {
+					a.setVal(t, bo, map[bool]string{true: "F", false: "T"}[isNil])
+				}
+			}
+		}
+	}
+}
+
+// exitNonNil: the error returned on exit e is known non-nil (a made error, or returned under a taken `err != nil` test in the callee).
+func (a *tagAnalysis) exitNonNil(e exitT, rv ssa.Value) bool {
+	if os.Getenv("MXJ_TAGTRACE") == "3" {
+		fmt.Fprintf(os.Stderr, "EXITNN rv=%s [%s]\n", rv.Name(), e.t.key())
+	}
+	switch x := rv.(type) {
+	case *ssa.MakeInterface:
+		return true
+	case *ssa.Call:
+		if isCallTo(x.Common(), "fmt.Errorf", "errors.New") {
+			return true
+		}
+	}
+	if rv.Referrers() == nil {
+		return false
+	}
+	for _, ref := range *rv.Referrers() {
+		bo, ok := ref.(*ssa.BinOp)
+		if !ok || !isNilConst(bo.Y) || bo.X != rv {
+			continue
+		}
+		// the fact is keyed canonically in the callee's function
+		cz := a.p.canonFor(bo.Parent())
+		k := "c:(" + cz.of(bo.X) + " == " + cz.of(bo.Y) + ")"
+		switch e.t.vals[k] {
+		case "F":
+			return true
+		}
+	}
+	return false
 }
 
 func (a *tagAnalysis) report(r *Report, rule string, minSites int) {
@@ -1733,7 +2230,7 @@ func seqEncoderAnalysis(p *Prog, r *Report, rule string) *tagAnalysis {
 	a.domain = seqDomain
 	a.stateNames = sqNames
 	a.writeOp = func(cm *ssa.CallCommon) (ssa.Value, bool, bool) {
-		if isCallTo(cm, "(*strings.Builder).WriteString") && cm.Args[0] == ssa.Value(a.buf) {
+		if isCallTo(cm, "(*strings.Builder).WriteString") && a.isBufVal(cm.Args[0]) {
 			return cm.Args[1], false, true
 		}
 		return nil, false, false
